@@ -415,7 +415,8 @@ class StubsLib(StubsBase):
 
     def np_sqrt(self, ctx, x):
         if not is_sym(x) and x == 2:
-            return V.SQRT2
+            # np.sqrt(2) is a NumPy float64 *scalar*: not "weak" in NEP-50 promotion -> 0-d float64
+            return SArr((), lambda ix: V.SQRT2, DType("float64"))
         if V.is_num(x):
             r = ctx.fresh("sqrt")
             ctx.assume(z3.And(r >= 0, r * r == V.R(V.Z(x))), why="sqrt-def")
